@@ -97,13 +97,27 @@ func (ex *Exec) callAt(x ssa.Value, cc *ssa.CallCommon, h *Heap, reach Term) {
 		dynPre = h.clone()
 		sc := ex.specCtx(dynVars, dynPre)
 		for _, dc := range ex.contract.DynCalls {
-			if dc.Field == fld && !dc.Ensures {
+			if dc.Field == fld && !dc.Ensures && !dc.OnPanic {
 				ex.q.oblige(fmt.Sprintf("%s/pre@dyn.%s#%d.%s", ex.q.fnName, fld, ex.counters["dyn."+fld], dc.Clause.Label), "pre", reach, sc.evalBool(dc.Clause),
 					ex.P.fset.Position(x.Pos()), "precondition of the call through "+fld+": "+dc.Clause.Text)
 			}
 		}
 	}
 	ex.q.note("%s: call through function value %s: heap havoced, result unconstrained", ex.fn.Name(), cc.Value.Name())
+	if ex.wantsExc() {
+		hx := ex.havocAllKeep(h, reach)
+		if dynVars != nil {
+			scx := ex.specCtx(dynVars, hx)
+			scx.old = dynPre
+			for _, dc := range ex.contract.DynCalls {
+				if dc.Field == fld && dc.OnPanic {
+					ex.q.assume(implies(reach, scx.evalBool(dc.Clause)))
+				}
+			}
+		}
+		ins, _ := x.(ssa.Instruction)
+		ex.recordExit(reach, hx, ins, "panic in the function called through "+fld)
+	}
 	*h = *ex.havocAllKeep(h, reach)
 	rs := ex.havocResults(sig, reach)
 	ex.setResults(x, sig, rs)
@@ -370,6 +384,25 @@ func (ex *Exec) contractCall(f *ssa.Function, c *Contract, args []Term, h *Heap,
 		}
 	}
 	effs = resolved
+	if ex.wantsExc() && !c.Pure {
+		// the callee may panic: it leaves behind a state reached by (part of) its effects, of which only its
+		// exceptional postconditions are known
+		hx := pre.clone()
+		if len(effs) > 0 {
+			hx = cx.applyEffects(pre, effs, nil, reach)
+		}
+		scx := &SpecCtx{ex: cx, pkg: f.Pkg, vars: vars, heap: hx, old: pre}
+		for _, e := range c.OnPanic {
+			if q.propActive(e.OnlyProp) || e.OnlyProp == "assumed" {
+				q.assume(implies(reach, scx.evalBool(e)))
+			}
+		}
+		ins, _ := at.(ssa.Instruction)
+		if dv, isDefer := at.(deferValue); isDefer {
+			ins = dv.d
+		}
+		ex.recordExit(reach, hx, ins, "panic in "+f.Name())
+	}
 	if len(effs) > 0 || !c.Pure {
 		*h = *cx.applyEffects(pre, effs, nil, reach)
 	}
@@ -776,12 +809,17 @@ func (ex *Exec) deferInstr(x *ssa.Defer, h *Heap, reach Term) {
 }
 
 func (ex *Exec) runDefers(x *ssa.RunDefers, h *Heap, reach Term) {
-	for i := len(ex.defers) - 1; i >= 0; i-- {
-		d := ex.defers[i]
-		// the deferred call runs only if its defer statement was executed on this path
+	ex.runDeferred(ex.defers, x.Block(), h, reach)
+}
+
+// runDeferred executes the deferred calls ds (last first) on h for a path with condition reach that ends in block at
+// (nil: unknown): a deferred call runs only if its defer statement was executed on that path.
+func (ex *Exec) runDeferred(ds []deferred, at *ssa.BasicBlock, h *Heap, reach Term) {
+	for i := len(ds) - 1; i >= 0; i-- {
+		d := ds[i]
 		g := and(reach, d.reach)
 		cc := d.call.Common()
-		if d.call.Block().Dominates(x.Block()) {
+		if at != nil && d.call.Block().Dominates(at) {
 			ex.callAt(deferValue{d.call}, cc, h, g)
 			continue
 		}
